@@ -174,12 +174,19 @@ def samplesOf (env : Env) (op : RangeOp) (uw : Option Unwrap) (g : Option Groupi
 
 def sumVals (vs : List Val) : Val := vs.foldl Val.add (.q 0)
 
+/-- values the ordering of the model covers: rationals and NaN -/
+def Val.ordered : Val → Bool
+  | .q _ | .nan => true
+  | _ => false
+
 def minVal (vs : List Val) : Val :=
+  if !vs.all Val.ordered then .unk else
   match vs with
   | [] => .q 0
   | v :: rest => rest.foldl (fun m x => if x == .nan then x else if Val.lt x m then x else m) v
 
 def maxVal (vs : List Val) : Val :=
+  if !vs.all Val.ordered then .unk else
   match vs with
   | [] => .q 0
   | v :: rest => rest.foldl (fun m x => if x == .nan then x else if Val.lt m x then x else m) v
